@@ -352,7 +352,15 @@ def _large(ctx, R, H, N, cost, seed):
 def run_shard(spec, tier, seed):
     ctx = Ctx()
     if spec["kind"] == "large":
-        _large(ctx, *spec["dims"], tuple(spec["cost"]), seed)
+        for gs in S.GLOBAL_STATES:  # the same instance under every global torch state: results must not change
+            sub = Ctx()
+            with S.global_state(gs):
+                _large(sub, *spec["dims"], tuple(spec["cost"]), seed)
+            for v in sub.violations:
+                v["sig"]["global_state"] = gs
+            sub.viol_count = type(sub.viol_count)({k.replace("}", ', "global_state": "%s"}' % gs, 1) if k.endswith("}") else k: n
+                                                   for k, n in sub.viol_count.items()})
+            ctx.merge(sub)
         return ctx
     if spec["kind"] == "mer":
         _mer_shard(ctx, spec["part"], 16, tier, seed)
